@@ -24,7 +24,7 @@ try:
     if rc != 0:
         rc, o = sh("git apply -3 %s/patch.diff" % src)
         assert rc == 0, "patch does not apply: " + o
-    rc, patch = sh("git diff -- . ':!out'"); assert patch.strip()
+    rc, patch = sh("git diff HEAD -- . ':!out'"); assert patch.strip()
     rc, o = sh("go build ./... && go build -tags verif ./..."); assert rc == 0, "build failed: " + o[-2000:]
     log["build"] = "ok"
     rc, o = sh("go test -vet=off -count=1 . ./components ./cmd/... 2>&1 | grep -E '^(--- FAIL|FAIL|ok|panic)'")
@@ -34,7 +34,7 @@ try:
     assert not bad, "suite fails with patch: %s" % bad
     sh("rm -rf log components/log _scipipe_tmp* ; git clean -fdq -e out .")
     t0 = time.time(); rc1, o1 = sh(demo, timeout=300); log["demo_with_patch"] = dict(rc=rc1, tail=o1[-1500:], s=round(time.time()-t0, 1))
-    sh("git checkout -- . ; rm -rf log components/log _scipipe_tmp*; git clean -fdq -e out .")
+    sh("git reset -q --hard HEAD ; rm -rf log components/log _scipipe_tmp*; git clean -fdq -e out .")
     t0 = time.time(); rc0, o0 = sh(demo, timeout=300); log["demo_without_patch"] = dict(rc=rc0, tail=o0[-800:], s=round(time.time()-t0, 1))
     assert rc1 != 0 and rc0 == 0, "demo does not discriminate: with=%s without=%s\n%s\n----\n%s" % (rc1, rc0, o1[-1500:], o0[-800:])
     dst = "/verif/seeded/%s_%s" % (prop, mk)
